@@ -69,14 +69,16 @@ func (c *uvCtx) score() {
 		return
 	}
 	ks := c.kinks()
+	// the whole argument grid inside the support, except the very far tail points where
+	// LogProb is so large that its differences carry no digits
 	var xs []float64
-	for i, x := range c.qx {
-		xs = append(xs, x)
-		if i+1 < len(c.qx) {
-			xs = append(xs, x+(c.qx[i+1]-x)/2)
+	for _, q := range c.allx {
+		if q.tag == "vfar " || q.tag == "out " || q.x < c.lo || q.x > c.hi {
+			continue
 		}
+		xs = append(xs, q.x)
 	}
-	xs = append(xs, ks...)
+	xs = set(xs, ks)
 	span := c.qx[len(c.qx)-1] - c.qx[0]
 	np := len(c.p)
 	for _, x := range xs {
@@ -117,6 +119,10 @@ func (c *uvCtx) score() {
 				sc := c.sp.scoreScale(c.p, j)
 				h := 1e-3 * sc
 				if c.paramMovesKink(j) {
+					if dist < 1e-7*sc {
+						c.t.Count("score_points_too_close_to_a_kink", 1)
+						continue
+					}
 					h = math.Min(h, 0.02*dist)
 				}
 				if c.sp.name == "Triangle" {
@@ -164,6 +170,10 @@ func (c *uvCtx) score() {
 				continue
 			}
 			if dist == 0 {
+				continue
+			}
+			if dist < 1e-7*span {
+				c.t.Count("score_points_too_close_to_a_kink", 1)
 				continue
 			}
 			h := math.Min(1e-3*span, 0.02*dist)
